@@ -176,6 +176,12 @@ void cv_coarse_boundary_cells(CellVec *c, int res, int per) {
     }
 }
 
+void cv_coarse_boundary_sample(CellVec *c, int res, int n) {
+    CellVec t = {0}; cv_coarse_boundary_cells(&t, res, 0);
+    for (int i = 0; i < n && t.n > 0; i++) cv_push(c, t.v[vt_randn(t.n)]);
+    cv_free(&t);
+}
+
 /* index words built from the documented layout: one non-zero digit d at position p, every other digit 0 (pentagon and
  * hexagon base cells); and random cells followed by a run of centre digits */
 void cv_sparse_digit_cells(CellVec *c, int res, int quick) {
